@@ -310,7 +310,8 @@ def _case(seed: int) -> Dict[str, Any]:
     rng = random.Random(seed)
     nr = 1 + seed % 3
     # every third case: operator names that also occur as user annotations (one name under two categories)
-    a = gen.gen_trace_set(seed, n_ranks=nr, steps=2 + seed % 2, n_top=2, n_streams=2, p_dual_cat=0.5 if seed % 3 == 0 else 0.0)
+    a = gen.gen_trace_set(seed, n_ranks=nr, steps=2 + seed % 2, n_top=2, n_streams=2, p_dual_cat=0.5 if seed % 3 == 0 else 0.0,
+                          step_base=9 if seed % 2 else 10)  # 9, 10, 11: numeric order differs from the order of the annotation strings
     b = {rk: _variant(evs, rng) for rk, evs in a.items()}
     fails: List[Dict[str, Any]] = []
     n = 0
@@ -341,6 +342,29 @@ def _case(seed: int) -> Dict[str, Any]:
                     c[1] += int(du)
             return cnt
 
+        # the iterations a trace offers are its profiler step numbers in ascending NUMERIC order; leaving the selection out means the first of them
+        for lt in (la, lb):
+            present = sorted({int(x) for rk in lt.ranks() for x in lt.t.get_trace(rk)["iteration"] if int(x) >= 0})
+            its_ = [int(x) for x in lt.iterations()]
+            n += 1
+            if its_ != sorted(its_) or not set(present) <= set(its_):
+                fails.append({"what": "iterations_ascending", "input": inp, "observed": its_, "expected": f"ascending, containing {present}"})
+        try:
+            comp0 = rt.lib(fails, "compare_traces(default selection)", inp, TraceDiff.compare_traces, la, lb)
+            r0c, r0t = [la.ranks()[0]], [lb.ranks()[0]]
+            i0c, i0t = {min(int(x) for x in la.iterations())}, {min(int(x) for x in lb.iterations())}
+            ec0, et0 = summary(la, r0c, i0c, DeviceType.ALL, False), summary(lb, r0t, i0t, DeviceType.ALL, False)
+            cc0 = [c for c in comp0.columns if c.endswith("_counts") and c != "diff_counts"]
+            n += 1
+            if len(cc0) == 2:
+                got0 = {k: (int(r[cc0[0]]), int(r[cc0[1]])) for k, r in comp0.iterrows()}
+                exp0 = {k: (ec0.get(k, [0, 0])[0], et0.get(k, [0, 0])[0]) for k in set(ec0) | set(et0)}
+                if got0 != exp0:
+                    bad0 = {k: (got0.get(k), exp0.get(k)) for k in set(got0) | set(exp0) if got0.get(k) != exp0.get(k)}
+                    fails.append({"what": "default_selection_is_first_rank_and_first_iteration", "input": inp, "observed": {k: v[0] for k, v in list(bad0.items())[:5]},
+                                  "expected": {k: v[1] for k, v in list(bad0.items())[:5]}})
+        except rt.LibFailure:
+            pass
         for pair, self_cmp in (((la, lb), False), ((la, la), True)):
             ctl, tst = pair
             its_c, its_t = ctl.iterations(), tst.iterations()
